@@ -80,6 +80,10 @@ def cases(tier, seed):
     # one SolverOptions object re-used for two solves and edited in between (the rule applies to the settings as they are now)
     for drive, how in itertools.product(("field", "gentle_current"), ("fixed_first", "larger_limits_first")):
         out.append(dict(fam="real", drive=drive, mult=0.5, window=3, reuse_options=how))
+    # continuation runs: the seed ended with a time step far from this run's dt_init (grown to its own, larger dt_max); the rule of
+    # *this* run starts from its own dt_init and honours its own bounds; with adaptivity off every step is dt_init
+    for drive, how, win in itertools.product(("field", "gentle_current"), ("adaptive", "fixed"), (1, 3)):
+        out.append(dict(fam="real", drive=drive, mult=0.5, window=win, seeded=how))
     # pinned terminal values other than 0: the windowed change must be that of the states actually visited
     for tp in ("0.5", "0.6+0.3j", "1", "None") if tier == "quick" else ("0.5", "0.6+0.3j", "1", "None", "1e-3", "0.9"):
         for win in (1, 3):
@@ -293,6 +297,24 @@ def run_real_case(case):
             pass
         for f, v in want.items():
             setattr(opts, f, v)
+    if case.get("seeded"):
+        # the seed: an adaptive run of the same problem whose last steps are much longer than the dt_init of the checked run
+        o1 = tdgl.SolverOptions(solve_time=(1.0 if gentle else 3.0), dt_init=s["dt_init"], dt_max=2 * s["dt_max"], adaptive=True, adaptive_window=2,
+                                adaptive_time_step_multiplier=0.5, max_solve_retries=12, save_every=1, output_file="seed.h5", progress_interval=10**9, terminal_psi=tp)
+        try:
+            seed = tdgl.solve(dev, o1, **kw)
+        except RuntimeError as exc:
+            res.info.append(f"seed run raised {str(exc)[:80]}")
+            res.outcome = "seed-refused"
+            return res
+        res.count("seed_last_dt_over_dt_init", int(float(seed.tdgl_data.state["dt"]) > 2 * s["dt_init"]))
+        kw = dict(kw, seed_solution=seed)
+        opts.solve_time = 0.3 if gentle else 2.0
+        if case["seeded"] == "fixed":
+            s = dict(s, adaptive=False, maxr=0)
+            opts.adaptive = False
+            opts.dt_init = s["dt_init"] = (2e-3 if gentle else 0.02)
+            opts.solve_time = 20 * opts.dt_init
     try:
         if case.get("edit_after_build"):
             # window, multiplier and retry limit are edited on the options object between building the solver and running it
@@ -312,6 +334,13 @@ def run_real_case(case):
     proposal = s["dt_init"]
     nretry = 0
     for n, dt in enumerate(dts):
+        if not s["adaptive"]:
+            res.transitions += 1
+            res.states.add("real;fixed-step")
+            if dt != s["dt_init"]:
+                res.violate("fixed-step-run-uses-another-dt", seeded=bool(case.get("seeded")), detail={"step": n, "dt": dt, "dt_init": s["dt_init"], "case": case})
+                break
+            continue
         cands = [proposal * s["mult"] ** j for j in range(s["maxr"] + 2)]
         j = next((j for j, c in enumerate(cands) if abs(c - dt) <= 1e-9 * c), None)
         res.transitions += 1
@@ -329,6 +358,8 @@ def run_real_case(case):
     res.count("real_steps", len(dts))
     res.count("retried", nretry)
     res.nontrivial = len(dts) > s["window"] + 2
+    if case.get("seeded"):
+        res.count("seeded_real_steps", len(dts))
     res.outcome = f"real;retries={'yes' if nretry else 'no'};tp={case.get('terminal_psi', '0')}"
     return res
 
